@@ -260,11 +260,13 @@ func WriteKeyRegistry(reg *KeyRegistry, opt KeyRegistryOptions) error {
 	}
 	tmpPath := filepath.Join(opt.Dir, KeyRegistryRewriteFileName)
 	// Open temporary file to write the data and do atomic rename.
+	y.VerifIO("open", tmpPath)
 	fp, err := y.OpenTruncFile(tmpPath, true)
 	if err != nil {
 		return y.Wrapf(err, "Error while opening tmp file in WriteKeyRegistry")
 	}
 	// Write buf to the disk.
+	y.VerifIO("dwrite", tmpPath)
 	if _, err = fp.Write(buf.Bytes()); err != nil {
 		// close the fd before returning error. We're not using defer
 		// because, for windows we need to close the fd explicitly before
@@ -277,6 +279,7 @@ func WriteKeyRegistry(reg *KeyRegistry, opt KeyRegistryOptions) error {
 		return y.Wrapf(err, "Error while closing tmp file in WriteKeyRegistry")
 	}
 	// Rename to the original file.
+	y.VerifIO("rename", tmpPath+"\x00"+filepath.Join(opt.Dir, KeyRegistryFileName))
 	if err = os.Rename(tmpPath, filepath.Join(opt.Dir, KeyRegistryFileName)); err != nil {
 		return y.Wrapf(err, "Error while renaming file in WriteKeyRegistry")
 	}
@@ -357,6 +360,7 @@ func (kr *KeyRegistry) LatestDataKey() (*pb.DataKey, error) {
 			return nil, err
 		}
 		// Persist the datakey to the disk
+		y.VerifIO("dwrite", filepath.Join(kr.opt.Dir, KeyRegistryFileName))
 		if _, err = kr.fp.Write(buf.Bytes()); err != nil {
 			return nil, err
 		}
